@@ -9,7 +9,10 @@
                      return: nothing is sent); Send.
      handleResponse: wait := Handlers[id]; nil -> log and drop; else decode, CALL BACK, then
                      delete(Handlers, id)  (the entry is still in the table while the callback
-                     runs, exactly as in the code).
+                     runs, exactly as in the code).  "decode" is modelled field by field
+                     ([decode]: ErrCode, ErrInfo, Type, Body -> the (err, msg) pair handed to
+                     the callback), as is the peer's ResponseEx ([encode]: code, text, return
+                     value -> fields), so that the VALUE a callback receives is an observable.
      checkExpired  : empty table -> freeTimer; else collect ids with Timeout < now (strict),
                      then for each: wait := Handlers[id]; CALL BACK(ErrTimeout); delete.
    Everything runs in the service's own context, one operation at a time; "all schedules" is
@@ -25,20 +28,92 @@ Definition MaxReqId : Z := 2147483632.   (* 0x7FFFFFF0 *)
 Definition Timeout : Z := 30000.         (* RequestTimeout, ms *)
 Definition Clock0 : Z := 1000000.        (* virtual clock at the start of a case *)
 
-(* what a response carries / what a callback is told *)
+(* ---------------------------------------------------------------- the value of a reply
+   What a response carries, field by field, and what the callback is told.  The payload
+   messages are the two test messages of servicemsgs: TestHello{I int32; S string} and
+   EmptyArg{}.  Strings and error texts are numbered (0 is the EMPTY string / text; the
+   harness maps numbers to texts injectively); [i] ranges over int32. *)
+
+(* ServiceResponse.Type *)
+Inductive ty :=
+| TyNone        (* "" : no return value *)
+| TyHello       (* "servicemsgs.TestHello" *)
+| TyEmpty       (* "servicemsgs.EmptyArg" *)
+| TyUnknown.    (* a name no message type of this process is registered under *)
+
+(* ServiceResponse.Body *)
+Inductive body :=
+| BFields (i s : Z)   (* the proto3 encoding of field 1 (int32) = i, field 2 (string) = text s.  proto3
+                         OMITS fields at their default value: [BFields 0 0] IS THE EMPTY BYTE STRING *)
+| BJunk.              (* ff ff ff: bytes that are not a wire-format message at all *)
+
+(* a ServiceResponse minus its ReqId: ErrCode, ErrInfo (text number), Type, Body *)
+Inductive wire := Wire (code info : Z) (t : ty) (b : body).
+
+(* what a peer hands to Service.Response as the return value *)
+Inductive pmsg :=
+| MNil                (* nil interface: "no return value" *)
+| MTypedNil           (* a nil pointer of type TestHello inside a non-nil interface *)
+| MHello (i s : Z)    (* &TestHello{I: i, S: text s}; MHello 0 0 has every field at its default *)
+| MEmpty.             (* &EmptyArg{} *)
+
+(* how a response comes about *)
 Inductive kind :=
-| KOk (p : Z)        (* ErrCode 0, body decodes to payload p *)
-| KNil               (* ErrCode 0, no body (Type = "") *)
-| KErr (e : Z)       (* ErrCode <> 0, ErrInfo names e *)
-| KBad (v : Z).      (* ErrCode 0, body cannot be decoded (v = 0 unknown type name, else corrupt bytes) *)
+| KAns (code info : Z) (m : pmsg)   (* the peer calls Service.Response(req, code, text info, m) (or completes
+                                       the API method with (error text info | nil, m)) *)
+| KRaw (w : wire).                  (* a ServiceResponse with exactly these fields reaches the service *)
 
+(* a decoded, non-nil message *)
+Inductive val := VHello (i s : Z) | VEmpty.
+
+(* the two arguments (err, msg) of the callback *)
 Inductive cls :=
-| RReply (p : Z) | RNil | RErr (e : Z) | RBad    (* from a response *)
-| RTimeout                                        (* ErrTimeout from checkExpired *)
-| RNoService.                                     (* app.ErrorNoService, node level *)
+| RReply (v : val)        (* (nil, non-nil message v) *)
+| RNil                    (* (nil, nil) *)
+| RErr (e : Z)            (* (error whose text is text e, nil) - the remote error *)
+| RBad (partial : bool)   (* (local decode error, nil) / (local decode error, the partially filled message
+                             proto.Unmarshal leaves behind) - the body could not be decoded *)
+| RTimeout                (* (ErrTimeout, nil) from checkExpired *)
+| RNoService              (* (app.ErrorNoService, nil), node level *)
+| ROther.                 (* anything else (an error together with a message, a message of another type, an
+                             unexpected error): the model never produces it *)
 
-Definition cls_of (k : kind) : cls :=
-  match k with KOk p => RReply p | KNil => RNil | KErr e => RErr e | KBad _ => RBad end.
+(* ResponseEx: an error code suppresses the return value; without one ErrInfo stays empty and a
+   non-nil return value - also a typed nil pointer, which marshals to zero bytes - is serialised
+   under its type name *)
+Definition encode_msg (m : pmsg) : ty * body :=
+  match m with
+  | MNil => (TyNone, BFields 0 0)
+  | MTypedNil => (TyHello, BFields 0 0)
+  | MHello i s => (TyHello, BFields i s)
+  | MEmpty => (TyEmpty, BFields 0 0)
+  end.
+
+Definition encode (code info : Z) (m : pmsg) : wire :=
+  if code =? 0 then Wire 0 0 (fst (encode_msg m)) (snd (encode_msg m))
+  else Wire code info TyNone (BFields 0 0).
+
+Definition wire_of (k : kind) : wire :=
+  match k with KAns code info m => encode code info m | KRaw w => w end.
+
+(* remote.Deserialize(Body, Type) behind deserializeResponse: decoded whenever Type is set, WHATEVER
+   the length of the body (zero bytes decode to the message with all fields at their defaults);
+   an unknown type name is a recovered panic (nil, err); junk bytes are (partial message, err);
+   EmptyArg accepts any well-formed body (unknown fields are kept aside) *)
+Definition decode_body (t : ty) (b : body) : cls :=
+  match t, b with
+  | TyNone, _ => RNil
+  | TyUnknown, _ => RBad false
+  | TyHello, BFields i s => RReply (VHello i s)
+  | TyEmpty, BFields _ _ => RReply VEmpty
+  | _, BJunk => RBad true
+  end.
+
+(* handleResponse: ErrCode <> 0 -> errors.New(ErrInfo), nothing is decoded; else Type <> "" -> decode *)
+Definition decode (w : wire) : cls :=
+  match w with Wire code info t b => if code =? 0 then decode_body t b else RErr info end.
+
+Definition cls_of (k : kind) : cls := decode (wire_of k).
 
 (* What user code does: issue a request (its callback, when it runs, executes [prog]),
    issue a request whose message cannot be serialised, notify, node-level request with no
